@@ -703,6 +703,11 @@ def run(ctx):
     from props import helpers as _helpers_l
     ctx.guard(_helpers_l.lean_induction, ctx, "C11", ['Pvx.loop_rule'])
     ctx.guard(_helpers_l.lean_psd, ctx, "C11", ['Pvx.congr_psd', 'Pvx.predict_psd', 'Pvx.joseph_psd'])
+    # one measurement update IS the Gauss-Markov (weighted least squares) estimate: mean solves the normal equations, covariance
+    # inverts the information matrix (lean/Kalman.lean).  What stays assumed of "KF recursion = one-shot Gauss-Markov solution" is the
+    # probabilistic part: the time update is the push-forward of a Gaussian under an affine map with independent noise, and
+    # conditioning on independent measurement blocks can be done block after block.
+    ctx.guard(_helpers_l.lean_kalman, ctx, "C11", ['Pvx.gain_form_solves_normal_equations', 'Pvx.information_form', 'Pvx.joseph_eq_short'])
     # frame of the modules under contract (no state kept between calls, arguments left alone): same analysis as C19
     from props import C19 as _C19
     ctx.guard(_C19.frame_obligations, ctx, py, "C11", {'kalman', 'util', 'filters'})
